@@ -49,7 +49,7 @@ impl Prop for C02 {
             check: 6,
             ..Weights::default()
         };
-        wcase_strategy(cfg_strategy(Just(false).boxed(), false), w, 5, ops)
+        crate::gens::with_roll_episodes(wcase_strategy(cfg_strategy(Just(false).boxed(), false), w, 5, ops))
     }
 
     fn run(case: &WCase, _ctx: &Ctx) -> Outcome {
